@@ -1,7 +1,45 @@
-//! Ops that are described on the line rather than by an enum variant (queries, schedules …).
+//! Ops that are described on the line rather than by an enum variant (queries, …).
+use crate::comps::*;
 use crate::core::*;
 use crate::family::Family;
 
-pub fn exec_raw<F: Family>(_it: &mut Interp<F>, _w: usize, _name: &str, _args: &[String]) -> Option<String> {
-    None
+pub fn exec_raw<F: Family>(it: &mut Interp<F>, w: usize, name: &str, args: &[String]) -> Option<String> {
+    let world = it.worlds[w].as_mut()?;
+    match (name, args.len()) {
+        // q <views> <filter> <mode> <epoch|->
+        ("q", 4) => {
+            let f = F::queries().iter().find(|q| q.0 == args[0] && q.1 == args[1])?.2;
+            let mode: u8 = match args[2].as_str() { "fold" => 1, "mix1" => 2, "mix2" => 3, _ => 0 };
+            let write: Option<u64> = args[3].parse().ok();
+            let out = f(world, mode, write);
+            for e in out.hint_errors.iter() {
+                ledger_error(format!("oracle=query size_hint views={} filter={} {}", args[0], args[1], e));
+            }
+            let mut rows = out.rows;
+            rows.sort();
+            Some(format!("ok n={} rows={} drops=@", rows.len(), rows.join(",")))
+        }
+        ("entryq", 3) => {
+            let id = parse_id(&args[0])?;
+            let f = F::entryqs().iter().find(|q| q.0 == args[1] && q.1 == args[2])?.2;
+            Some(match f(world, mk_ident(id)) {
+                Err(()) => "none".to_string(),
+                Ok(None) => "filtered".to_string(),
+                Ok(Some(row)) => format!("ok row={}", row),
+            })
+        }
+        ("entries", 6) => {
+            let id = parse_id(&args[3])?;
+            let f = F::entries()
+                .iter()
+                .find(|q| q.0 == args[0] && q.1 == args[1] && q.2 == args[2] && q.3 == args[4] && q.4 == args[5])?
+                .5;
+            Some(match f(world, mk_ident(id)) {
+                Err(()) => "none".to_string(),
+                Ok(None) => "filtered".to_string(),
+                Ok(Some(row)) => format!("ok row={}", row),
+            })
+        }
+        _ => None,
+    }
 }
